@@ -12,7 +12,6 @@ import (
 	"net/http/httptest"
 	"net/netip"
 	"net/url"
-	"runtime"
 	"runtime/debug"
 	"strconv"
 	"sync"
@@ -254,7 +253,7 @@ func RunRequest(t *testing.T, rq *Request) *ReqOutcome {
 				fx = publicip.NewPublicIPFetcherWithClient(&http.Client{Transport: rt})
 			}
 			tr := traceroute.NewTracerouteWithFetcher(fx)
-			out.GorBefore = runtime.NumGoroutine()
+			out.GorBefore = bubbleGoroutines()
 			begin := time.Now()
 			func() {
 				defer func() {
@@ -288,7 +287,7 @@ func RunRequest(t *testing.T, rq *Request) *ReqOutcome {
 			if !rq.RealTime {
 				synctest.Wait()
 			}
-			out.GorAfter = runtime.NumGoroutine()
+			out.GorAfter = bubbleGoroutines()
 		}
 		if rq.RealTime {
 			body(t)
